@@ -26,7 +26,7 @@ impl Sbox for UserB {
 
 // ---------------------------------------------------------------------------------------------------------- leaves
 
-//@ harness name=magma_gen_exp_sbox prop=C07,C20 tier=quick bits=512 est=30 desc="L: gen_exp_sbox on a symbolic 8x16 table of 4-bit values (all 16^128 tables): every expanded entry out[i][j + 16k] == sbox[2i][j] + 16*sbox[2i+1][k], i.e. low nibble through table 2i and high nibble through table 2i+1; no overflow, no out-of-bounds"
+//@ harness name=magma_gen_exp_sbox prop=C07,C20 tier=quick bits=512 est=20 desc="L: gen_exp_sbox on a symbolic 8x16 table of 4-bit values (all 16^128 tables): every expanded entry out[i][j + 16k] == sbox[2i][j] + 16*sbox[2i+1][k], i.e. low nibble through table 2i and high nibble through table 2i+1; no overflow, no out-of-bounds"
 verif_harness! {
     name: magma_gen_exp_sbox,
     bytes: 64 + 2,
@@ -65,49 +65,49 @@ fn leaf<S: Sbox>(inp: &[u8; 8], sb: &r::Sboxes) -> Option<bool> {
     Some(S::g(a, k) == r::g(sb, a, k))
 }
 
-//@ harness name=magma_leaf_tc26 prop=C07,C20 tier=quick bits=64 est=20 desc="L: Tc26: apply_sbox(a) == oracle t(a) (eight 4-bit substitutions pi_0..pi_7) and g(a,k) == t(a+k)<<<11 for all a, k"
+//@ harness name=magma_leaf_tc26 prop=C07,C20 tier=quick bits=64 est=6 desc="L: Tc26: apply_sbox(a) == oracle t(a) (eight 4-bit substitutions pi_0..pi_7) and g(a,k) == t(a+k)<<<11 for all a, k"
 verif_harness! {
     name: magma_leaf_tc26,
     bytes: 8,
     prop: |inp| { leaf::<Tc26>(inp, &r::TC26) }
 }
-//@ harness name=magma_leaf_test prop=C07,C20 tier=quick bits=64 est=20 desc="L: TestSbox: apply_sbox / g vs oracle t / g for all a, k"
+//@ harness name=magma_leaf_test prop=C07,C20 tier=quick bits=64 est=6 desc="L: TestSbox: apply_sbox / g vs oracle t / g for all a, k"
 verif_harness! {
     name: magma_leaf_test,
     bytes: 8,
     prop: |inp| { leaf::<TestSbox>(inp, &r::TEST) }
 }
-//@ harness name=magma_leaf_cpa prop=C07,C20 tier=quick bits=64 est=20 desc="L: CryptoProA: apply_sbox / g vs oracle t / g for all a, k"
+//@ harness name=magma_leaf_cpa prop=C07,C20 tier=quick bits=64 est=6 desc="L: CryptoProA: apply_sbox / g vs oracle t / g for all a, k"
 verif_harness! {
     name: magma_leaf_cpa,
     bytes: 8,
     prop: |inp| { leaf::<CryptoProA>(inp, &r::CRYPTOPRO_A) }
 }
-//@ harness name=magma_leaf_cpb prop=C07,C20 tier=quick bits=64 est=20 desc="L: CryptoProB: apply_sbox / g vs oracle t / g for all a, k"
+//@ harness name=magma_leaf_cpb prop=C07,C20 tier=quick bits=64 est=6 desc="L: CryptoProB: apply_sbox / g vs oracle t / g for all a, k"
 verif_harness! {
     name: magma_leaf_cpb,
     bytes: 8,
     prop: |inp| { leaf::<CryptoProB>(inp, &r::CRYPTOPRO_B) }
 }
-//@ harness name=magma_leaf_cpc prop=C07,C20 tier=quick bits=64 est=20 desc="L: CryptoProC: apply_sbox / g vs oracle t / g for all a, k"
+//@ harness name=magma_leaf_cpc prop=C07,C20 tier=quick bits=64 est=6 desc="L: CryptoProC: apply_sbox / g vs oracle t / g for all a, k"
 verif_harness! {
     name: magma_leaf_cpc,
     bytes: 8,
     prop: |inp| { leaf::<CryptoProC>(inp, &r::CRYPTOPRO_C) }
 }
-//@ harness name=magma_leaf_cpd prop=C07,C20 tier=quick bits=64 est=20 desc="L: CryptoProD: apply_sbox / g vs oracle t / g for all a, k"
+//@ harness name=magma_leaf_cpd prop=C07,C20 tier=quick bits=64 est=6 desc="L: CryptoProD: apply_sbox / g vs oracle t / g for all a, k"
 verif_harness! {
     name: magma_leaf_cpd,
     bytes: 8,
     prop: |inp| { leaf::<CryptoProD>(inp, &r::CRYPTOPRO_D) }
 }
-//@ harness name=magma_leaf_usera prop=C07,C20 tier=quick bits=64 est=20 desc="L: user-supplied set A (eight permutations not bundled with the crate): apply_sbox / g vs oracle t / g for all a, k"
+//@ harness name=magma_leaf_usera prop=C07,C20 tier=quick bits=64 est=6 desc="L: user-supplied set A (eight permutations not bundled with the crate): apply_sbox / g vs oracle t / g for all a, k"
 verif_harness! {
     name: magma_leaf_usera,
     bytes: 8,
     prop: |inp| { leaf::<UserA>(inp, &r::USER_A) }
 }
-//@ harness name=magma_leaf_userb prop=C07,C20 tier=quick bits=64 est=20 desc="L: user-supplied set B (eight arbitrary, non-bijective 4-bit tables): apply_sbox / g vs oracle t / g for all a, k"
+//@ harness name=magma_leaf_userb prop=C07,C20 tier=quick bits=64 est=6 desc="L: user-supplied set B (eight arbitrary, non-bijective 4-bit tables): apply_sbox / g vs oracle t / g for all a, k"
 verif_harness! {
     name: magma_leaf_userb,
     bytes: 8,
@@ -147,31 +147,202 @@ fn d_rt<S: Sbox>(inp: &[u8; 40], enc_first: bool) -> Option<bool> {
     Some(b.0 == blk)
 }
 
-//@ harness name=magma_d_enc_tc26 prop=C07,C20 tier=quick bits=320 est=300 desc="D: Magma::new(key).encrypt_block(b) == oracle GOST R 34.12-2015 Magma encryption, all 2^256 keys, all 2^64 blocks"
+//@ harness name=magma_d_enc_tc26 prop=C07,C20 tier=quick bits=320 est=89 desc="D: Magma::new(key).encrypt_block(b) == oracle GOST R 34.12-2015 Magma encryption, all 2^256 keys, all 2^64 blocks"
 verif_harness! {
     name: magma_d_enc_tc26,
     bytes: 40,
     unwind: 34,
     prop: |inp| { d_enc::<Tc26>(inp, &r::TC26) }
 }
-//@ harness name=magma_d_dec_tc26 prop=C07,C20 tier=quick bits=320 est=300 desc="D: Magma::new(key).decrypt_block(b) == oracle Magma decryption, all keys, all blocks"
+//@ harness name=magma_d_dec_tc26 prop=C07,C20 tier=quick bits=320 est=158 desc="D: Magma::new(key).decrypt_block(b) == oracle Magma decryption, all keys, all blocks"
 verif_harness! {
     name: magma_d_dec_tc26,
     bytes: 40,
     unwind: 34,
     prop: |inp| { d_dec::<Tc26>(inp, &r::TC26) }
 }
-//@ harness name=magma_rt_ed_tc26 prop=C01,C20 tier=quick bits=320 est=250 desc="D: Magma dec(enc(b)) == b incl. key loading, all keys, all blocks"
+//@ harness name=magma_rt_ed_tc26 prop=C01,C20 tier=quick bits=320 est=212 desc="D: Magma dec(enc(b)) == b incl. key loading, all keys, all blocks"
 verif_harness! {
     name: magma_rt_ed_tc26,
     bytes: 40,
     unwind: 34,
     prop: |inp| { d_rt::<Tc26>(inp, true) }
 }
-//@ harness name=magma_rt_de_tc26 prop=C01,C20 tier=quick bits=320 est=250 desc="D: Magma enc(dec(b)) == b incl. key loading, all keys, all blocks"
+//@ harness name=magma_rt_de_tc26 prop=C01,C20 tier=quick bits=320 est=129 desc="D: Magma enc(dec(b)) == b incl. key loading, all keys, all blocks"
 verif_harness! {
     name: magma_rt_de_tc26,
     bytes: 40,
     unwind: 34,
     prop: |inp| { d_rt::<Tc26>(inp, false) }
+}
+
+// ---------------------------------------------------------------------------------------------------------- the other sets
+
+//@ harness name=magma_d_enc_test prop=C07,C20 tier=thorough bits=320 est=120 desc="D: Gost89<TestSbox>::new(key).encrypt_block(b) == oracle 32-round GOST 28147-89 encryption over TestSbox, all 2^256 keys, all 2^64 blocks"
+verif_harness! {
+    name: magma_d_enc_test,
+    bytes: 40,
+    unwind: 34,
+    prop: |inp| { d_enc::<TestSbox>(inp, &r::TEST) }
+}
+//@ harness name=magma_d_dec_test prop=C07,C20 tier=thorough bits=320 est=160 desc="D: Gost89<TestSbox>::new(key).decrypt_block(b) == oracle GOST 28147-89 decryption over TestSbox, all keys, all blocks"
+verif_harness! {
+    name: magma_d_dec_test,
+    bytes: 40,
+    unwind: 34,
+    prop: |inp| { d_dec::<TestSbox>(inp, &r::TEST) }
+}
+//@ harness name=magma_rt_ed_test prop=C01,C20 tier=thorough bits=320 est=220 desc="D: Gost89<TestSbox> dec(enc(b)) == b incl. key loading, all keys, all blocks"
+verif_harness! {
+    name: magma_rt_ed_test,
+    bytes: 40,
+    unwind: 34,
+    prop: |inp| { d_rt::<TestSbox>(inp, true) }
+}
+//@ harness name=magma_rt_de_test prop=C01,C20 tier=thorough bits=320 est=140 desc="D: Gost89<TestSbox> enc(dec(b)) == b incl. key loading, all keys, all blocks"
+verif_harness! {
+    name: magma_rt_de_test,
+    bytes: 40,
+    unwind: 34,
+    prop: |inp| { d_rt::<TestSbox>(inp, false) }
+}
+//@ harness name=magma_d_enc_cpa prop=C07,C20 tier=thorough bits=320 est=120 desc="D: Gost89<CryptoProA>::new(key).encrypt_block(b) == oracle 32-round GOST 28147-89 encryption over CryptoProA, all 2^256 keys, all 2^64 blocks"
+verif_harness! {
+    name: magma_d_enc_cpa,
+    bytes: 40,
+    unwind: 34,
+    prop: |inp| { d_enc::<CryptoProA>(inp, &r::CRYPTOPRO_A) }
+}
+//@ harness name=magma_d_dec_cpa prop=C07,C20 tier=thorough bits=320 est=160 desc="D: Gost89<CryptoProA>::new(key).decrypt_block(b) == oracle GOST 28147-89 decryption over CryptoProA, all keys, all blocks"
+verif_harness! {
+    name: magma_d_dec_cpa,
+    bytes: 40,
+    unwind: 34,
+    prop: |inp| { d_dec::<CryptoProA>(inp, &r::CRYPTOPRO_A) }
+}
+//@ harness name=magma_rt_ed_cpa prop=C01,C20 tier=thorough bits=320 est=220 desc="D: Gost89<CryptoProA> dec(enc(b)) == b incl. key loading, all keys, all blocks"
+verif_harness! {
+    name: magma_rt_ed_cpa,
+    bytes: 40,
+    unwind: 34,
+    prop: |inp| { d_rt::<CryptoProA>(inp, true) }
+}
+//@ harness name=magma_rt_de_cpa prop=C01,C20 tier=thorough bits=320 est=140 desc="D: Gost89<CryptoProA> enc(dec(b)) == b incl. key loading, all keys, all blocks"
+verif_harness! {
+    name: magma_rt_de_cpa,
+    bytes: 40,
+    unwind: 34,
+    prop: |inp| { d_rt::<CryptoProA>(inp, false) }
+}
+//@ harness name=magma_d_enc_cpb prop=C07,C20 tier=thorough bits=320 est=120 desc="D: Gost89<CryptoProB>::new(key).encrypt_block(b) == oracle 32-round GOST 28147-89 encryption over CryptoProB, all 2^256 keys, all 2^64 blocks"
+verif_harness! {
+    name: magma_d_enc_cpb,
+    bytes: 40,
+    unwind: 34,
+    prop: |inp| { d_enc::<CryptoProB>(inp, &r::CRYPTOPRO_B) }
+}
+//@ harness name=magma_d_dec_cpb prop=C07,C20 tier=thorough bits=320 est=160 desc="D: Gost89<CryptoProB>::new(key).decrypt_block(b) == oracle GOST 28147-89 decryption over CryptoProB, all keys, all blocks"
+verif_harness! {
+    name: magma_d_dec_cpb,
+    bytes: 40,
+    unwind: 34,
+    prop: |inp| { d_dec::<CryptoProB>(inp, &r::CRYPTOPRO_B) }
+}
+//@ harness name=magma_rt_ed_cpb prop=C01,C20 tier=thorough bits=320 est=220 desc="D: Gost89<CryptoProB> dec(enc(b)) == b incl. key loading, all keys, all blocks"
+verif_harness! {
+    name: magma_rt_ed_cpb,
+    bytes: 40,
+    unwind: 34,
+    prop: |inp| { d_rt::<CryptoProB>(inp, true) }
+}
+//@ harness name=magma_rt_de_cpb prop=C01,C20 tier=thorough bits=320 est=140 desc="D: Gost89<CryptoProB> enc(dec(b)) == b incl. key loading, all keys, all blocks"
+verif_harness! {
+    name: magma_rt_de_cpb,
+    bytes: 40,
+    unwind: 34,
+    prop: |inp| { d_rt::<CryptoProB>(inp, false) }
+}
+//@ harness name=magma_d_enc_cpc prop=C07,C20 tier=thorough bits=320 est=120 desc="D: Gost89<CryptoProC>::new(key).encrypt_block(b) == oracle 32-round GOST 28147-89 encryption over CryptoProC, all 2^256 keys, all 2^64 blocks"
+verif_harness! {
+    name: magma_d_enc_cpc,
+    bytes: 40,
+    unwind: 34,
+    prop: |inp| { d_enc::<CryptoProC>(inp, &r::CRYPTOPRO_C) }
+}
+//@ harness name=magma_d_dec_cpc prop=C07,C20 tier=thorough bits=320 est=160 desc="D: Gost89<CryptoProC>::new(key).decrypt_block(b) == oracle GOST 28147-89 decryption over CryptoProC, all keys, all blocks"
+verif_harness! {
+    name: magma_d_dec_cpc,
+    bytes: 40,
+    unwind: 34,
+    prop: |inp| { d_dec::<CryptoProC>(inp, &r::CRYPTOPRO_C) }
+}
+//@ harness name=magma_rt_ed_cpc prop=C01,C20 tier=thorough bits=320 est=220 desc="D: Gost89<CryptoProC> dec(enc(b)) == b incl. key loading, all keys, all blocks"
+verif_harness! {
+    name: magma_rt_ed_cpc,
+    bytes: 40,
+    unwind: 34,
+    prop: |inp| { d_rt::<CryptoProC>(inp, true) }
+}
+//@ harness name=magma_rt_de_cpc prop=C01,C20 tier=thorough bits=320 est=140 desc="D: Gost89<CryptoProC> enc(dec(b)) == b incl. key loading, all keys, all blocks"
+verif_harness! {
+    name: magma_rt_de_cpc,
+    bytes: 40,
+    unwind: 34,
+    prop: |inp| { d_rt::<CryptoProC>(inp, false) }
+}
+//@ harness name=magma_d_enc_cpd prop=C07,C20 tier=thorough bits=320 est=120 desc="D: Gost89<CryptoProD>::new(key).encrypt_block(b) == oracle 32-round GOST 28147-89 encryption over CryptoProD, all 2^256 keys, all 2^64 blocks"
+verif_harness! {
+    name: magma_d_enc_cpd,
+    bytes: 40,
+    unwind: 34,
+    prop: |inp| { d_enc::<CryptoProD>(inp, &r::CRYPTOPRO_D) }
+}
+//@ harness name=magma_d_dec_cpd prop=C07,C20 tier=thorough bits=320 est=160 desc="D: Gost89<CryptoProD>::new(key).decrypt_block(b) == oracle GOST 28147-89 decryption over CryptoProD, all keys, all blocks"
+verif_harness! {
+    name: magma_d_dec_cpd,
+    bytes: 40,
+    unwind: 34,
+    prop: |inp| { d_dec::<CryptoProD>(inp, &r::CRYPTOPRO_D) }
+}
+//@ harness name=magma_rt_ed_cpd prop=C01,C20 tier=thorough bits=320 est=220 desc="D: Gost89<CryptoProD> dec(enc(b)) == b incl. key loading, all keys, all blocks"
+verif_harness! {
+    name: magma_rt_ed_cpd,
+    bytes: 40,
+    unwind: 34,
+    prop: |inp| { d_rt::<CryptoProD>(inp, true) }
+}
+//@ harness name=magma_rt_de_cpd prop=C01,C20 tier=thorough bits=320 est=140 desc="D: Gost89<CryptoProD> enc(dec(b)) == b incl. key loading, all keys, all blocks"
+verif_harness! {
+    name: magma_rt_de_cpd,
+    bytes: 40,
+    unwind: 34,
+    prop: |inp| { d_rt::<CryptoProD>(inp, false) }
+}
+//@ harness name=magma_d_enc_usera prop=C07,C20 tier=thorough bits=320 est=120 desc="D: Gost89<UserA>::new(key).encrypt_block(b) == oracle 32-round GOST 28147-89 encryption over user-supplied set A (permutations), all 2^256 keys, all 2^64 blocks"
+verif_harness! {
+    name: magma_d_enc_usera,
+    bytes: 40,
+    unwind: 34,
+    prop: |inp| { d_enc::<UserA>(inp, &r::USER_A) }
+}
+//@ harness name=magma_d_dec_usera prop=C07,C20 tier=thorough bits=320 est=160 desc="D: Gost89<UserA>::new(key).decrypt_block(b) == oracle GOST 28147-89 decryption over user-supplied set A (permutations), all keys, all blocks"
+verif_harness! {
+    name: magma_d_dec_usera,
+    bytes: 40,
+    unwind: 34,
+    prop: |inp| { d_dec::<UserA>(inp, &r::USER_A) }
+}
+//@ harness name=magma_d_enc_userb prop=C07,C20 tier=thorough bits=320 est=120 desc="D: Gost89<UserB>::new(key).encrypt_block(b) == oracle 32-round GOST 28147-89 encryption over user-supplied set B (arbitrary 4-bit tables), all 2^256 keys, all 2^64 blocks"
+verif_harness! {
+    name: magma_d_enc_userb,
+    bytes: 40,
+    unwind: 34,
+    prop: |inp| { d_enc::<UserB>(inp, &r::USER_B) }
+}
+//@ harness name=magma_d_dec_userb prop=C07,C20 tier=thorough bits=320 est=160 desc="D: Gost89<UserB>::new(key).decrypt_block(b) == oracle GOST 28147-89 decryption over user-supplied set B (arbitrary 4-bit tables), all keys, all blocks"
+verif_harness! {
+    name: magma_d_dec_userb,
+    bytes: 40,
+    unwind: 34,
+    prop: |inp| { d_dec::<UserB>(inp, &r::USER_B) }
 }
